@@ -130,7 +130,15 @@ M('c08-push-after-conditional', [(LIB, '''        let msg = alloc::format!("{err
         }
 
         self.shared_state.panic_reasons''')], {'C08': r'R08\.[12]'})
-M('c08-read-consumes', [('src/state.rs', 'self.panic_reasons.locked(|reasons| reasons.clone())', 'self.panic_reasons.locked(|reasons| core::mem::take(reasons))')], {'C08': r'R08\.3'})
+# (emptying the list in the reader is equivalent when the read is the last access - see neutral_agents/E2/patch2 - so the mutant also
+#  moves the read in front of the live-clone test, where a clone can still record and the panic path loses what was taken)
+M('c08-read-consumes', [('src/state.rs', 'self.panic_reasons.locked(|reasons| reasons.clone())', 'self.panic_reasons.locked(|reasons| core::mem::take(reasons))'),
+                        (TD, '''        let panic_reasons = unimock.shared_state.clone_panic_reasons();
+''', ''),
+                        (TD, '''    let strong_count = Arc::strong_count(&unimock.shared_state);
+''', '''    let panic_reasons = unimock.shared_state.clone_panic_reasons();
+    let strong_count = Arc::strong_count(&unimock.shared_state);
+''')], {'C08': r'R08\.3'})
 M('c08-only-first-reason', [(TD, '''            return Err(panic_reasons);''', '''            return Err(crate::alloc::vec![panic_reasons[0].clone()]);''')], {'C08': r'R08\.4'})
 M('c08-direct-panic-in-eval', [('src/eval.rs', '''            DynResponder::Panic(msg) => Err(MockError::ExplicitPanic {
                 fn_call: dyn_ctx.fn_call(),
